@@ -39,6 +39,18 @@ let oracle label kind ?(name = "") want got =
   Printf.printf "ORACLE %s %d %s %s%s want=%s got=%s\n" cur.case_id cur.opno label kind
     (if name = "" then "" else " name=" ^ name) want got
 
+(* "name=f:c,f:c;name=-;..." -> the Clr / Ins steps ReplaceNextHopsEnc performs *)
+let batch_of (text : string) : fibop list =
+  let batch = List.map (fun it -> match fields_of it with
+      | [nm; hops] -> (name_of_string nm, nh_of_string hops)
+      | _ -> failwith ("bad batch item " ^ it)) (String.split_on_char ';' text) in
+  expand_bop (Rep batch)
+
+let fibops_of (fields : string list) : fibop list option =
+  match fields with
+  | ["rep"; text] -> Some (batch_of text)
+  | _ -> None
+
 let fibop_of (fields : string list) : fibop option =
   match fields with
   | ["ins"; nm; f; c] -> Some (Ins (name_of_string nm, n_of_dec f, n_of_dec c))
@@ -100,7 +112,7 @@ let handle_obs label kind (value : string) =
       else List.iter2 (fun nm v ->
           let mv = string_of_strat (model_find_strat label nm) in
           if mv <> v then diverge label "st" (string_of_name nm ^ "=" ^ mv) (string_of_name nm ^ "=" ^ v);
-          let sv = if cur.kind = "fib" then string_of_strat (spec_find_strat cur.spec nm) else "0" in
+          let sv = string_of_strat (spec_find_strat cur.spec nm) in
           if sv <> v then oracle label "st" ~name:(string_of_name nm) sv v)
           cur.universe vals
   | "fib" ->
@@ -113,7 +125,7 @@ let handle_obs label kind (value : string) =
   | "sl" ->
       let mv = strat_listing_string (list_strat (model_entries label)) in
       if mv <> join_sorted (items_of value) then diverge label "sl" mv value;
-      let sv = if cur.kind = "fib" then strat_listing_string (spec_list_strat cur.spec) else "/=0" in
+      let sv = strat_listing_string (spec_list_strat cur.spec) in
       if sv <> join_sorted (items_of value) then oracle label "sl" sv value
   | "nodes" ->
       let mv = nodes_string cur.tree.nodes in
@@ -175,10 +187,19 @@ let fib_main () =
             cur.opkinds <- List.hd fields :: cur.opkinds;
             cur.oplog <- String.concat " " fields :: cur.oplog;
             if cur.kind = "fib" then begin
+              let ops = match fibops_of fields with Some l -> Some l | None -> (match fibop_of fields with Some o -> Some [o] | None -> None) in
+              match ops with
+              | Some l ->
+                  List.iter (fun o ->
+                      cur.tree <- tree_step cur.tree o;
+                      cur.ht <- ht_step (mnat ()) cur.ht o;
+                      cur.spec <- spec_step cur.spec o) l
+              | None -> Printf.printf "BADLINE %d %s\n" !lineno line
+            end else if (match fields with ("sets" | "uns") :: _ -> true | _ -> false) then begin
+              (* RIB-driven case: a strategy set/unset made directly on the FIB; the strategy part of the flat spec follows it *)
               match fibop_of fields with
               | Some o ->
-                  cur.tree <- tree_step cur.tree o;
-                  cur.ht <- ht_step (mnat ()) cur.ht o;
+                  if cur.impls = "T" then cur.tree <- tree_step cur.tree o else cur.ht <- ht_step (mnat ()) cur.ht o;
                   cur.spec <- spec_step cur.spec o
               | None -> Printf.printf "BADLINE %d %s\n" !lineno line
             end else begin
